@@ -37,6 +37,13 @@ let run op a =
   | "iset_inter" -> out_iset (iset_inter (iset (g 0)) (iset (g 1)))
   | "iset_union" -> out_iset (iset_union (iset (g 0)) (iset (g 1)))
   | "iset_diff" -> out_iset (iset_diff (iset (g 0)) (iset (g 1)))
+  | "count" -> let r = count_binned (zs (g 0)) (iset (g 1)) (List.hd (zs (g 2))) in
+      out_z (List.map fst r) ^ "|" ^ out_n (List.map snd r)
+  | "count_spec" -> let r = count_spec (zs (g 0)) (iset (g 1)) (List.hd (zs (g 2))) in
+      out_z (List.map fst r) ^ "|" ^ out_n (List.map snd r)
+  | "bin_average" -> let r = bin_sum_cnt (zs (g 0)) (zs (g 1)) (iset (g 2)) (List.hd (zs (g 3))) in
+      out_z (List.map fst r) ^ "|" ^ out_n (List.map (fun (_, (c, _)) -> c) r) ^ "|" ^ out_z (List.map (fun (_, (_, s)) -> s) r)
+  | "value_from" -> out_on (value_from (List.hd (zs (g 0))) (zs (g 1)) (zs (g 2)) (iset (g 3)))
   | _ -> "ERR unknown op " ^ op
 
 let () =
